@@ -1126,9 +1126,15 @@ class Executor(object):
             if isinstance(x, list):
                 return len(x)
             if isinstance(x, SymChoice):
-                ls = set(a.len for g, a in x.alts)
-                if len(ls) == 1:
-                    return ls.pop()
+                res = None
+                for g, a in reversed(x.alts):
+                    ln = a.len if isinstance(a, Slice) else None
+                    if ln is None:
+                        res = None
+                        break
+                    res = ln if res is None else int_ite(g, ln, res, 64)
+                if res is not None:
+                    return res
             h = self.intr.get('#len')
             if h:
                 return h(self, st, x)
